@@ -40,6 +40,7 @@ def run(tier):
     from ..canon import R64, R32, regnum, REGW
     plain = common.build("plain")
     leas = [c for c in cases if c["form"] == "lea" and REGW[c["mreg"]] in (32, 64) and c["base"] != "esp" and c["index"] not in ("rsp", "esp")
+            and c["mreg"] not in ("rsp", "esp")  # the destination must not be the stack pointer of the program that runs it
             and not (c["base"] == "rsp" and (c["asz"] != 64 or REGW[c["mreg"]] != 64))]
     if len(leas) > (4000 if not full else 60000):
         leas = rnd.sample(leas, 4000 if not full else 60000)
